@@ -7,7 +7,7 @@
    Every C++ `throw` (and every undefined behaviour the code could reach) is [None].
    kxp / hip_est_accum are floating point and are not part of the model. *)
 From Coq Require Import ZArith NArith List Bool.
-From DS Require Import Word Murmur3 RunnerLib.
+From DS Require Import Word Murmur3 RunnerLib Canon.
 Import ListNotations.
 Local Open Scope N_scope.
 
@@ -462,12 +462,6 @@ Local Open Scope Z_scope.
 
 Inductive obj := OSk (s : sketch) (log : list N) | OUn (u : union) (lg0 : N) (inputs : list (N * list N)).
 
-Definition item_bytes (kind : Z) (args : list Z) : list N :=
-  match kind with
-  | 2 => map (fun z => w8 (zN z)) args
-  | _ => match args with v :: _ => N_to_le_bytes 8 (z_to_u64 v) | [] => [] end
-  end.
-
 Definition NL (l : list N) : list Z := map Nz l.
 
 Definition head_tokens (s : sketch) : option (list Z) :=
@@ -490,9 +484,9 @@ Definition step (st : list (Z * obj)) (o e : line) : list (Z * obj) * outline :=
   | 2 :: r :: kind :: args =>                              (* update with an item *)
       match reg_get st r with
       | Some (OSk s log) =>
-          match item_bytes kind args with
-          | [] => (st, (ok, []))                           (* empty string ignored *)
-          | bs =>
+          match canon_input kind args with                 (* Canon.v: every update overload -> bytes hashed *)
+          | None => (st, (ok, []))                         (* empty string ignored *)
+          | Some bs =>
             let '(h0, h1) := murmur3_x64_128 bs (seed s) in
             match row_col_from_two_hashes h0 h1 (lgk s) with
             | Some rc =>
